@@ -774,6 +774,8 @@ class Exec:
             if len(a) != len(b):
                 return z3.BoolVal(False)
             return z3.And(*[self.equal(x, y, node) for x, y in zip(a, b)]) if a else z3.BoolVal(True)
+        if isinstance(a, z3.ExprRef) and isinstance(b, z3.ExprRef) and a.sort().eq(b.sort()):
+            return a == b          # values of an uninterpreted sort (e.g. name parts): Python == is their equality
         if hasattr(self, "equal_hook"):
             r = self.equal_hook(a, b, node)
             if r is not None:
@@ -870,6 +872,8 @@ class Exec:
                     out += o.model.getitem(self, o, key, q2, e); continue
                 if isinstance(o, Opaque):
                     out.append((Opaque("item"), q2)); continue
+                if hasattr(o, "getitem_sym"):
+                    out += o.getitem_sym(self, key, q2, e); continue
                 self.unsupported(e, f"subscript of {o!r}")
         return out
 
@@ -1006,6 +1010,8 @@ class Exec:
             return [(v.length, q)]
         if isinstance(v, SymObj) and v.model is not None and hasattr(v.model, "length"):
             return [(v.model.length(self, v, q, e), q)]
+        if hasattr(v, "len_term"):
+            return [(v.len_term, q)]
         self.unsupported(e, f"len({v!r})")
 
     def b_ceil_log2(self, args, kwargs, q, e):
